@@ -9,7 +9,7 @@ CONSTANTS
   HeuleKs = {3}
   PbShape = "ordered"
   PbTerms = 3
-  PbPols = {0, 1}
+  PbPols = {1}
   PbNeg = 0
   PbPos = 2
   PbBound = 4
